@@ -4,7 +4,7 @@ From Coq Require Import Ascii String List Bool ZArith NArith.
 From PTBase Require Import Exn PyStr PyNum PyVal.
 From PTModel Require Import Fortran FortranNF FortranRender.
 From Gen Require Import GenFortran.
-From P Require Import Spec Blanks IntRender Styles Main.
+From P Require Import Spec Blanks IntRender Styles Main Readers Defaults.
 Import ListNotations.
 Open Scope char_scope.
 
@@ -142,3 +142,97 @@ Theorem fortran_float_style_catalogue : forall bv x g, wf_real x ->
   (forall k, style_ok (st_F k g) x -> gen_reads_back bv (st_F k g) x).
 Proof. exact ff_catalogue. Qed.
 Print Assumptions fortran_float_style_catalogue.
+
+(** ** THE READERS AS THEIR USERS GET THEM (Readers.v).  t2incon and every fixed_format_file parser
+    do not call fortran_float/fortran_int: they look a format letter up in the dictionary
+    [fortran_read_function = read_function_dict(fortran_read_float, fortran_read_int)], where
+    [fortran_read_float/int = partial(fortran_float/int, blank_value = None)].  That glue is
+    regenerated from the module-level AST on every run ([gen_fortran_read_float/int], the table
+    [gen_fortran_read_function] of the letters bound to the Fortran readers, [reader_of] = d[k]). *)
+(** the dictionary has exactly the numeric letters d (integer) and e, f, g (real), bound to the
+    partial applications; s and x are left to the non-numeric readers *)
+Theorem fortran_read_function_keys :
+  map fst gen_fortran_read_function = ["d"; "e"; "f"; "g"] /\ gen_fortran_read_other_keys = ["s"; "x"] /\
+  reader_of "f" gen_fortran_read_function = Some gen_fortran_read_float /\
+  reader_of "e" gen_fortran_read_function = Some gen_fortran_read_float /\
+  reader_of "g" gen_fortran_read_function = Some gen_fortran_read_float /\
+  reader_of "d" gen_fortran_read_function = Some gen_fortran_read_int.
+Proof. exact read_function_keys. Qed.
+Print Assumptions fortran_read_function_keys.
+(** a real field (letter f, e or g): every output style of every real is read back as exactly that real *)
+Theorem fortran_read_function_reads_every_style : forall k st x, In k ["f"; "e"; "g"] -> wf_real x -> style_ok st x ->
+  exists f, reader_of k gen_fortran_read_function = Some f /\ f (VStr (render st x)) = Ok (VFloat (real_value x)).
+Proof. exact rf_real. Qed.
+Print Assumptions fortran_read_function_reads_every_style.
+(** ... and every non-blank text through its normal form only (blanks, case, D/d ignored) *)
+Theorem fortran_read_function_real_normal_form : forall k s, In k ["f"; "e"; "g"] -> strip s <> [] ->
+  exists f, reader_of k gen_fortran_read_function = Some f /\ f (VStr s) = Ok (VFloat (cascade (norm (strip s)))).
+Proof. exact rf_real_nf. Qed.
+Print Assumptions fortran_read_function_real_normal_form.
+(** an integer field (letter d): the Iw / Iw.m / SP output of z with blanks anywhere is read back as z *)
+Theorem fortran_read_function_reads_integers : forall z plus m gaps,
+  exists f, reader_of "d" gen_fortran_read_function = Some f /\ f (VStr (render_int z plus m gaps)) = Ok (VInt z).
+Proof. exact rf_int. Qed.
+Print Assumptions fortran_read_function_reads_integers.
+(** whatever reader a letter selects: a blank field gives None (the blank value the partial
+    applications bind), no text makes it raise, overflow asterisks give None (d) / NaN (e, f, g) *)
+Theorem fortran_read_function_blank_is_none : forall k f s, reader_of k gen_fortran_read_function = Some f ->
+  strip s = [] -> f (VStr s) = Ok VNone.
+Proof. exact rf_blank. Qed.
+Print Assumptions fortran_read_function_blank_is_none.
+Theorem fortran_read_function_never_raises : forall k f s, reader_of k gen_fortran_read_function = Some f ->
+  exists v, f (VStr s) = Ok v.
+Proof. exact rf_total. Qed.
+Print Assumptions fortran_read_function_never_raises.
+Theorem fortran_read_function_asterisks : forall k f s, reader_of k gen_fortran_read_function = Some f -> In "*" s ->
+  f (VStr s) = Ok (if Ascii.eqb k "d" then VNone else VFloat NaN).
+Proof. exact rf_stars. Qed.
+Print Assumptions fortran_read_function_asterisks.
+
+(** ** THE STRICT (PYTHON) DICTIONARY NEXT TO THE FORTRAN ONE (Defaults.v).  [value_error_none],
+    [default_read_float/int = value_error_none(float/int)] and [default_read_function =
+    read_function_dict()] are regenerated from the module-level AST as well.  "Anything Python's own
+    conversion accepts gives the same result", at the level of the two dictionaries. *)
+Theorem default_read_function_keys :
+  map fst gen_default_read_function = ["d"; "e"; "f"; "g"] /\ gen_default_read_other_keys = ["s"; "x"] /\
+  reader_of "f" gen_default_read_function = Some gen_default_read_float /\
+  reader_of "e" gen_default_read_function = Some gen_default_read_float /\
+  reader_of "g" gen_default_read_function = Some gen_default_read_float /\
+  reader_of "d" gen_default_read_function = Some gen_default_read_int.
+Proof. exact default_keys. Qed.
+Print Assumptions default_read_function_keys.
+(** the default dictionary is float()/int() with ValueError turned into None (so it never raises on a text) *)
+Theorem default_read_function_is_python : forall k f s, reader_of k gen_default_read_function = Some f ->
+  f (VStr s) = Ok (if Ascii.eqb k "d" then py_int_or_none s else py_float_or_none s).
+Proof. exact default_is_python. Qed.
+Print Assumptions default_read_function_is_python.
+(** whatever float() / int() accepts: both dictionaries return Python's value *)
+Theorem dictionaries_agree_on_python_reals : forall k s v, In k ["f"; "e"; "g"] -> py_float s = Ok v ->
+  exists fd ff, reader_of k gen_default_read_function = Some fd /\ reader_of k gen_fortran_read_function = Some ff /\
+    fd (VStr s) = Ok (VFloat v) /\ ff (VStr s) = Ok (VFloat v).
+Proof. exact both_python_real. Qed.
+Print Assumptions dictionaries_agree_on_python_reals.
+Theorem dictionaries_agree_on_python_integers : forall s z, py_int s = Ok z ->
+  exists fd ff, reader_of "d" gen_default_read_function = Some fd /\ reader_of "d" gen_fortran_read_function = Some ff /\
+    fd (VStr s) = Ok (VInt z) /\ ff (VStr s) = Ok (VInt z).
+Proof. exact both_python_int. Qed.
+Print Assumptions dictionaries_agree_on_python_integers.
+(** EXACTLY where the two dictionaries agree: on a real field, the texts float() accepts and the
+    blank fields (both None), nowhere else; on an integer field, additionally the non-blank texts
+    int() rejects even with all blanks removed (both None) *)
+Theorem dictionaries_agree_exactly_real : forall k fd ff s, In k ["f"; "e"; "g"] ->
+  reader_of k gen_default_read_function = Some fd -> reader_of k gen_fortran_read_function = Some ff ->
+  (fd (VStr s) = ff (VStr s) <-> (py_float_opt s <> None \/ strip s = [])).
+Proof. exact real_agree_iff. Qed.
+Print Assumptions dictionaries_agree_exactly_real.
+Theorem dictionaries_agree_exactly_integer : forall fd ff s,
+  reader_of "d" gen_default_read_function = Some fd -> reader_of "d" gen_fortran_read_function = Some ff ->
+  (fd (VStr s) = ff (VStr s) <-> (py_int_opt s <> None \/ strip s = [] \/ py_int_opt (inorm s) = None)).
+Proof. exact int_agree_iff. Qed.
+Print Assumptions dictionaries_agree_exactly_integer.
+(** where they differ: a blank or a D/d inside the field (inside what float() itself strips,
+    [cstrip]) makes the default reader answer None; [core_char c = false] iff c is white space, d or D *)
+Theorem default_reader_rejects_inner_blank_and_D : forall k fd s c, In k ["f"; "e"; "g"] ->
+  reader_of k gen_default_read_function = Some fd -> In c (cstrip s) -> core_char c = false -> fd (VStr s) = Ok VNone.
+Proof. exact default_none_on_blank_or_d. Qed.
+Print Assumptions default_reader_rejects_inner_blank_and_D.
